@@ -47,6 +47,13 @@ pub fn triangle_claims(t: Triangle, q: Point) {
         if strictly_inside(&t, q) { check!(seen == 1, "C19.covers_interior"); }
         if seen == 1 { check!(within_one_pixel(&t, q), "C19.near"); }
     }
+}
+
+/// vertex-order independence and the one-pixel outline for one (concrete) triangle
+pub fn triangle_order_outline(t: Triangle, q: Point) {
+    note!("triangle", t);
+    let mut seen = 0u32;
+    for p in t.points() { if p == q { seen += 1; } }
     // vertex order does not matter
     let [a, b, c] = t.vertices;
     let mut seen2 = 0u32;
@@ -64,20 +71,28 @@ pub fn triangle_claims(t: Triangle, q: Point) {
 }
 
 macro_rules! c19_g_tri {
-    ($name:ident, $unw:expr, [$((($ax:expr, $ay:expr), ($bx:expr, $by:expr), ($cx:expr, $cy:expr))),+ $(,)?]) => {
+    ($name:ident, $which:expr, $unw:expr, [$((($ax:expr, $ay:expr), ($bx:expr, $by:expr), ($cx:expr, $cy:expr))),+ $(,)?]) => {
         #[cfg_attr(kani, kani::proof, kani::unwind($unw))]
         pub fn $name() {
             let q = point(5);
             note!("q", q);
-            $( triangle_claims(Triangle::new(Point::new($ax, $ay), Point::new($bx, $by), Point::new($cx, $cy)), q); )+
+            $( if $which == 0 { triangle_claims(Triangle::new(Point::new($ax, $ay), Point::new($bx, $by), Point::new($cx, $cy)), q); }
+               else { triangle_order_outline(Triangle::new(Point::new($ax, $ay), Point::new($bx, $by), Point::new($cx, $cy)), q); } )+
             reach!(true, "reach.end");
         }
     };
 }
-c19_g_tri!(c05_c19_q_g_tri_a, 40, [((0, 0), (5, 1), (2, 5)), ((-3, -2), (2, 3), (-4, 4))]);
-c19_g_tri!(c05_c19_q_g_tri_b, 40, [((0, 0), (6, 0), (3, 4)), ((2, 2), (2, 2), (5, 3)), ((0, 0), (3, 3), (6, 6))]);
+// one small triangle per harness: contains() walks the three Bresenham edges for every point outside the
+// mathematical triangle, which dominates symbolic-execution time
+c19_g_tri!(c05_c19_q_g_tri_a, 0, 24, [((0, 0), (4, 1), (1, 3))]);
+c19_g_tri!(c05_c19_q_g_tri_flat, 0, 24, [((2, 2), (2, 2), (5, 3))]);
+c19_g_tri!(c19_q_g_tri_a_order, 1, 24, [((0, 0), (4, 1), (1, 3))]);
 #[cfg(feature = "thorough")]
-c19_g_tri!(c05_c19_t_g_tri_c, 60, [((0, 0), (7, 2), (1, 6)), ((-2, 5), (4, -3), (6, 4)), ((0, 0), (0, 5), (5, 0)), ((1, 1), (1, 1), (1, 1)), ((0, 3), (8, 3), (4, 3))]);
+c19_g_tri!(c05_c19_t_g_tri_b, 0, 40, [((0, 0), (5, 1), (2, 5)), ((-3, -2), (2, 3), (-4, 4))]);
+#[cfg(feature = "thorough")]
+c19_g_tri!(c05_c19_t_g_tri_c, 0, 40, [((0, 0), (6, 0), (3, 4)), ((0, 0), (3, 3), (6, 6)), ((1, 1), (1, 1), (1, 1))]);
+#[cfg(feature = "thorough")]
+c19_g_tri!(c19_t_g_tri_b_order, 1, 40, [((0, 0), (5, 1), (2, 5)), ((0, 0), (3, 3), (6, 6))]);
 
 /// two triangles sharing an edge leave no gap and have the same pixels along that edge
 macro_rules! c19_g_shared {
@@ -108,8 +123,9 @@ macro_rules! c19_g_shared {
 c19_g_shared!(c19_q_g_shared, 40, [((0, 0), (5, 3), (1, 5), (4, -2)), ((-2, 4), (3, -1), (-3, -2), (4, 4))]);
 
 /// thin polyline == union of its segment lines, joints emitted once (symbolic vertices)
+#[cfg(feature = "thorough")]
 #[cfg_attr(kani, kani::proof, kani::unwind(14))]
-pub fn c19_q_polyline_sym3() {
+pub fn c19_t_polyline_sym3() {
     let v = [point(2) + Point::new(2, 2), point(2) + Point::new(2, 2), point(2) + Point::new(2, 2)];
     let n = upto(3) as usize;
     let q = point(3) + Point::new(2, 2);
@@ -197,7 +213,8 @@ pub mod kernels {
             }
         };
     }
-    c19_row!(c05_c19_q_k_tri_row_b2, 2, 7);
+    #[cfg(feature = "thorough")]
+    c19_row!(c05_c19_t_k_tri_row_b2, 2, 7);
     #[cfg(feature = "thorough")]
     c19_row!(c05_c19_t_k_tri_row_b3, 3, 11);
 }
